@@ -10,6 +10,7 @@ import EaselModel.Containers.RedBlackPtrInsert
 import EaselModel.Containers.StackLemmas
 import EaselModel.Containers.StackHistory
 import EaselModel.Containers.StackThreadsLemmas
+import EaselModel.Containers.StackThreadsTerm
 import EaselModel.Containers.QuicksortLemmas
 import EaselModel.Containers.AllocBounds
 import EaselModel.Containers.Extras
@@ -507,6 +508,12 @@ example : (insert (#[⟨5, .black, none, some 1, some 2⟩, ⟨3, .black, some 0
       ⟨4, .black, none, some 7, some 9⟩] : Store) (some 0) 3).map (fun r => (r.2, r.1.toList.map (fun nd => (nd.key, nd.small, nd.large))))
     = some (some 0, [(5, some 1, some 2), (3, none, some 3), (8, none, none), (4, none, none)]) := by decide
 
+/-- REUSE OF A REFUSED RECORD (the node-reuse path after c81655a): a record given back to the pool's free list after `insert`
+    returned `NULL` is the next one taken, and taking it restores the free list as it was -/
+theorem rb_pool_give_take (st : Store) (pool : Ptr) (n : Nat) (nd : Node) (hr : rd st n = some nd) :
+    ∃ st', poolGive st pool n = some (st', some n) ∧ poolTake st' (some n) = some (n, pool) ∧
+      (∀ j, j ≠ n → rd st' j = rd st j) ∧ rd st' n = some { nd with large := pool } := poolGive_take hr
+
 /-- the first record becomes the black root -/
 theorem rb_ptr_insert_first (st : Store) (node : Nat) (nn : Node) (hr : rd st node = some nn) :
     ∃ st', insert st none node = some (st', some node) ∧ (∀ j, j ≠ node → rd st' j = rd st j) ∧
@@ -648,6 +655,42 @@ theorem stack_threads_mutex_progress {α : Type} (s : Stack.Stack α) (hi : Stac
     (∀ (t : Nat) (th : Thread α), st'.threads[t]? = some th → th.prog ≠ [] → ∃ a, (fire st' a).isSome = true) := by
   have hw := runSched_wf acts (wf_initial s hi progs) h
   exact ⟨hw.excl, fun t th hth hp => progress st' hw t th hth hp⟩
+
+/-- A WAITING `Pop` RETURNS AN ITEM PUSHED LATER, OR `eslEOD` AFTER `ReleaseCond`: from any reachable state in which thread `t`
+    sleeps in `pthread_cond_wait`, the mutex is free, and an item has arrived or `do_cond` has been cleared, the three steps
+    "wake up, re-acquire the mutex, run the critical section" are all enabled and the call returns — one more answer, the
+    thread is back between calls, the mutex is free again; it does not go back to sleep -/
+theorem stack_threads_waiting_pop_completes {α : Type} (s : Stack.Stack α) (hi : Stack.Inv s) (progs : List (List (TOp α)))
+    (acts : List Act) (st : TS α) (h : runSched (initial s progs) acts = some st) (t : Nat) (th : Thread α)
+    (hth : st.threads[t]? = some th) (hph : th.phase = .waiting) (hlock : st.lock = none)
+    (hready : st.doCond = false ∨ 0 < st.stack.data.size) :
+    ∃ st' th', runSched st [.wake t, .acquire t, .body t] = some st' ∧ st'.threads[t]? = some th' ∧
+      th'.phase = .start ∧ th'.outs.length = th.outs.length + 1 ∧ st'.lock = none :=
+  waiting_pop_completes st (runSched_wf acts (wf_initial s hi progs) h) t th hth hph hlock hready
+
+/-- AFTER `esl_stack_ReleaseCond` EVERY THREAD CAN RUN TO COMPLETION: from every reachable state in which `do_cond` is clear there
+    is a schedule after which all threads have finished all their calls (pushers, poppers, workers that pop until `eslEOD`,
+    sleepers in `pthread_cond_wait`) — and then, by `stack_threads_conservation`, what was popped plus what is left on the stack
+    is exactly the starting content plus everything the programs push. Nobody is left waiting for ever. -/
+theorem stack_threads_completes_after_release {α : Type} (s : Stack.Stack α) (hi : Stack.Inv s) (progs : List (List (TOp α)))
+    (acts : List Act) (st : TS α) (h : runSched (initial s progs) acts = some st) (hd : st.doCond = false) :
+    ∃ acts' st', runSched st acts' = some st' ∧ finished st' ∧
+      (st'.stack.data.toList ++ st'.popped).Perm (s.data.toList ++ progs.flatMap pushesOf) := by
+  obtain ⟨acts', st', h1, h2⟩ := completes_after_release (mu st) st (Nat.le_refl _) (runSched_wf acts (wf_initial s hi progs) h) hd
+  have h3 : runSched (initial s progs) (acts ++ acts') = some st' := by rw [runSched_append, h]; exact h1
+  exact ⟨acts', st', h1, h2, (stack_threads_conservation s hi progs (acts ++ acts') st' h3).2.2.2 h2⟩
+
+/-- THE ONLY WAY TO GET STUCK: in every reachable state either all threads have finished, or an action that makes real progress
+    is enabled (a critical section, taking the free mutex, waking a sleeper that will not go straight back to sleep), or
+    every unfinished thread sleeps in `pthread_cond_wait` on an EMPTY stack with `do_cond` still set and the mutex free —
+    the situation the documented idiom resolves by `esl_stack_ReleaseCond`, after which every sleeper can return
+    (`stack_threads_waiting_pop_completes`). There is no other deadlock. -/
+theorem stack_threads_stuck_only_when_all_asleep {α : Type} (s : Stack.Stack α) (hi : Stack.Inv s) (progs : List (List (TOp α)))
+    (acts : List Act) (st : TS α) (h : runSched (initial s progs) acts = some st) :
+    finished st ∨ (∃ a, (fire st a).isSome = true ∧ Useful st a) ∨
+    ((∀ (t : Nat) (th : Thread α), st.threads[t]? = some th → th.prog ≠ [] → th.phase = .waiting) ∧ st.lock = none ∧
+      st.doCond = true ∧ st.stack.data.size = 0) :=
+  stuck_only_when_all_asleep st (runSched_wf acts (wf_initial s hi progs) h)
 
 -- a waiting `Pop` returns an item pushed LATER by another thread …
 example : (runSched (initial (Stack.create : Stack.Stack Nat) [[.pop], [.push 7]])
